@@ -377,7 +377,7 @@ theorem run_dap_bound (hw : WF cfg.clock) (hi : InitOK cfg) (hr : RunReach F T c
     have hb := hgd.symm
     simp only [Bool.and_eq_true, decide_eq_true_eq, Bool.not_eq_eq_eq_not, Bool.not_true] at hb
     obtain ⟨⟨⟨_, b2⟩, b3⟩, b4⟩ := hb
-    have := hL.dapI h0 b3 b4 b2
+    have := hL.dapI h0 b3 b4 (Int.le_of_lt b2)
     have e2 : s.clockOf.dap = s.day.dap := rfl
     have e3 : s.clockOf.t = s.t := rfl
     have e4 : s.clockOf.season = s.season := rfl
@@ -387,6 +387,42 @@ theorem run_dap_bound (hw : WF cfg.clock) (hi : InitOK cfg) (hr : RunReach F T c
     have : (s.day.dap : Int) + (cfg.clock.pl s.season.toNat : Int) = (s.t : Int) := by
       exact_mod_cast this
     linarith
+  · rw [if_neg h0] at hgd
+    simp at hgd
+
+/-- … sharper, since the latest harvest date is not a growing day (repository commit d260679):
+the `dap` of a growing-season day is at most `harvest k − planting k` -/
+theorem run_dap_bound_harvest (hw : WF cfg.clock) (hi : InitOK cfg) (hr : RunReach F T cfg s)
+    (hp : performR F T cfg s = .ok s') {d : DayRec α} (hdl : s'.daysRev = d :: s.daysRev)
+    (hg : d.D.gs = true) :
+    0 ≤ s.season ∧
+      ((s.day.dap + 1 : Nat) : Int) ≤ cfg.clock.hv s.season.toNat - cfg.clock.pl s.season.toNat := by
+  obtain ⟨ph, hph, hf, hgs⟩ := performR_gs hp
+  obtain ⟨ev, hre, _⟩ := run_refines_clock hw hi hr
+  have hL := (good_of_reach hw hre).live hf
+  have hshi : s.season < cfg.clock.nSeasons := hL.shi
+  have hph' := seasonInfo_eq hw.2.2.1 hshi
+  rw [hph] at hph'
+  have e : ph = phOf cfg.clock s.season := Except.ok.inj hph'
+  have hgd := hgs d hdl
+  rw [hg, e] at hgd
+  unfold phOf gsOfDay at hgd
+  by_cases h0 : s.season ≥ 0
+  · rw [if_pos h0] at hgd
+    simp only at hgd
+    have hb := hgd.symm
+    simp only [Bool.and_eq_true, decide_eq_true_eq, Bool.not_eq_eq_eq_not, Bool.not_true] at hb
+    obtain ⟨⟨⟨_, b2⟩, b3⟩, b4⟩ := hb
+    have := hL.dapI h0 b3 b4 (Int.le_of_lt b2)
+    have e2 : s.clockOf.dap = s.day.dap := rfl
+    have e3 : s.clockOf.t = s.t := rfl
+    have e4 : s.clockOf.season = s.season := rfl
+    rw [e2, e3, e4] at this
+    refine ⟨h0, ?_⟩
+    push_cast
+    have : (s.day.dap : Int) + (cfg.clock.pl s.season.toNat : Int) = (s.t : Int) := by
+      exact_mod_cast this
+    omega
   · rw [if_neg h0] at hgd
     simp at hgd
 
